@@ -416,7 +416,9 @@ func inferAll(P *Program, U *Universe, fns []*ssa.Function, dir string, seed int
 			}
 		}
 		if len(obs) > 0 {
+			qfSatFinal = os.Getenv("GOVC_HOUDINI_FULL") == ""
 			solveAll(obs, dir, 2, 16, seed, []int{0}, false)
+			qfSatFinal = false
 			bad := map[*Clause]bool{}
 			touched := map[*ssa.Function]bool{}
 			for _, o := range obs {
